@@ -1315,7 +1315,7 @@ class AwareASTNode(DataClassSerializeMixin):
                     else:
                         yield_queue.append(child)
 
-                if prune and prune(child):
+                if prune is not None and prune(child):
                     continue
             else:
                 skip_self = False
@@ -1356,7 +1356,7 @@ class AwareASTNode(DataClassSerializeMixin):
                 if filter is None or filter(child):
                     yield child
 
-                if prune and prune(child):
+                if prune is not None and prune(child):
                     continue
             else:
                 skip_self = False
